@@ -5,7 +5,7 @@
 # originals in a private mount namespace, so the real trees are never touched.
 tier="${1:-quick}"; shift
 names="$*"
-S=/tmp/iso-seeds
+S=/tmp/iso-seeds${TAG:-}
 rm -rf $S; mkdir -p $S
 rsync -a --exclude target /repo/ $S/repo/
 # (a seeded patch may be applied to /repo's working tree at this very moment: the copy starts from the committed state)
